@@ -99,6 +99,9 @@ class C10(Prop):
                 own_branch = rng.random() < 0.4
                 yield {"op": "sync", "kind": "commit", "clone": n, "file": "f%d.txt" % rng.randint(0, 2),
                        "own_branch": own_branch, "session": "s" + n, "lines": rng.randint(1, 3), "dt": 3000}
+            elif kind == "push":
+                # the spellings people use to (re-)publish a branch; git resolves the same remote for all of them
+                yield {"op": "sync", "kind": kind, "clone": n, "env": env, "dt": 3000, "form": rng.randint(0, 7)}
             else:
                 yield {"op": "sync", "kind": kind, "clone": n, "env": env, "dt": 3000}
         # faults have stopped: every clone that has not pushed since its last commit pushes, then everyone fetches
@@ -158,7 +161,18 @@ class C10(Prop):
             if kind == "final_push" and st["pushed"].get(n):
                 return {"code": 0, "skipped": True}
             branch = w.raw_git(repo, "rev-parse", "--abbrev-ref", "HEAD").out.strip()
-            r = w.git(repo, "push", "-q", "-u", "origin", branch, env=env)
+            form = op.get("form", 0) if kind == "push" else 0
+            has_upstream = w.raw_git(repo, "rev-parse", "--abbrev-ref", "--symbolic-full-name", "@{u}").code == 0
+            argv = {0: ["push", "-q", "-u", "origin", branch],
+                    1: ["push", "-q", "origin", branch],
+                    2: ["push", "-q", "--force-with-lease", "origin", branch],
+                    3: ["push", "-q", "--no-verify", "origin", "HEAD:" + branch],
+                    4: ["push", "-q", "--receive-pack", "git-receive-pack", "origin", branch],
+                    5: ["push", "-q"] if has_upstream else ["push", "-q", "-u", "origin", branch],
+                    6: ["push", "-q", "--force-with-lease=" + branch, "origin", branch],
+                    7: ["push", "-q", "origin", branch, "--force-with-lease"]}[form]
+            ex.probe("push.form%d" % form)
+            r = w.git(repo, *argv, env=env)
             if r.code == 0 and not env:
                 st["pushed"][n] = True
                 st["epoch"] += 1
